@@ -153,6 +153,7 @@ ASSUME(L >= PMIN);
  * all 32 MAC bytes and all padding bytes were compared, and the reported length fits */
 static void check_accept(const uint8_t *hdr, const uint8_t *out, size_t body, size_t outlen, int mac0)
 {
+	V_COVER("accepted record");
 	CHECK(outlen + 32 + 1 <= body, "reported plaintext length fits in the ciphertext");
 	size_t pl = out[body - 1];
 	CHECK(outlen + 32 + pl + 1 == body, "length = body - MAC - padding");
